@@ -159,9 +159,11 @@ func compareQueryCore(id string, p Path, shape string, doc any, c Case, visited 
 	if f != nil {
 		// Does the implementation behave exactly like the reference with one recorded
 		// defect switched on? Then it is that known finding, not a new violation.
-		for _, q := range refQuirks {
+		for _, q := range append(append([]string{}, refQuirks...), strings.Join(refQuirks, "+")) {
 			var st2 cmpStats
-			if judgeQuery(id, shape, out, runRef(q), c, &st2) == nil && !st2.declined {
+			// (a reference that declines once the recorded defect is switched on cannot
+			// contradict the implementation either: the failure is attributed to that defect)
+			if judgeQuery(id, shape, out, runRef(q), c, &st2) == nil {
 				return &Failure{Sig: id + "/known/" + q, Expected: f.Expected, Observed: f.Observed}, st
 			}
 		}
@@ -171,7 +173,7 @@ func compareQueryCore(id string, p Path, shape string, doc any, c Case, visited 
 
 // refQuirks names the recorded defects the reference can emulate for
 // classification (each corresponds to one entry of KNOWN_FINDINGS.txt).
-var refQuirks = []string{"subscript-drops-null"}
+var refQuirks = []string{"subscript-drops-null", "isunknown-swallows-hard-error"}
 
 func judgeQuery(id, shape string, out Out, ro refOut, c Case, st *cmpStats) *Failure {
 	if out.Class == "panic" {
